@@ -7,6 +7,12 @@ import (
 	"path/filepath"
 )
 
+// c11RealProcessing: the core loop runs the real ProcessSegments (C17) instead of a summary.
+var c11RealProcessing bool
+
+// c11TriangleMax sets the block length of the Triangle source (2 x (max-100) samples).
+var c11TriangleMax RawType = 102
+
 type c11Server struct {
 	sc *SourceControl
 	ts *TriangleSource
@@ -17,7 +23,12 @@ type c11Server struct {
 // real Start: the core loop then runs the request closures exactly as in the server.
 func c11Start(kind int) *SourceControl {
 	vClockConcrete()
-	vStub("(*github.com/usnistgov/dastard.AnySource).ProcessSegments") // block contents are not the subject
+	if c11RealProcessing {
+		vStub("(*github.com/usnistgov/dastard.DataStreamProcessor).AnalyzeData")
+		vStub("(*github.com/usnistgov/dastard.TriggerCounter).countNewTriggers")
+	} else {
+		vStub("(*github.com/usnistgov/dastard.AnySource).ProcessSegments") // block contents are not the subject
+	}
 	PubRecordsChan = make(chan []*DataRecord, 16)
 	PubSummariesChan = make(chan []*DataRecord, 16)
 	sc := new(SourceControl)
@@ -38,7 +49,7 @@ func c11Start(kind int) *SourceControl {
 	var ds DataSource
 	if kind == 0 {
 		ts := NewTriangleSource()
-		ts.Configure(&TriangleSourceConfig{Nchan: 2, SampleRate: 10000, Min: 100, Max: 102})
+		ts.Configure(&TriangleSourceConfig{Nchan: 2, SampleRate: 10000, Min: 100, Max: c11TriangleMax})
 		ds = ts
 	} else {
 		ds = NewErroringSource()
@@ -51,6 +62,7 @@ func c11Start(kind int) *SourceControl {
 	err := Start(ds, sc.queuedRequests, 3, 4)
 	vCheck(err == nil, "Start succeeds")
 	sc.isSourceActive = true
+	sc.status.Running = true // as SourceControl.Start does
 	if kind == 0 {
 		ds.(*TriangleSource).writingState.BasePath = base
 	}
